@@ -457,7 +457,7 @@ def r4_replay(ck, rule="C04-R4"):
     tl = [l for l, nm in tah.names.items() if nm == "target_line"]
     found = False
     for l in tl:
-        for dd in df.defs_of(tah).all(l):
+        for dd in df.defs_through_copies(tah, l):
             if dd[1] in region and dd[0] == "stmt":
                 e = df.rvalue_expr(tah, dd[3]["rv"])
                 good = isinstance(e, tuple) and e[0] == "field" and e[2] == "rollback_line" and \
@@ -482,19 +482,16 @@ def r4_replay(ck, rule="C04-R4"):
                    "the position scan is reachable in rollback mode", tah.where(t))
     # (b) apply_modify: fuzz levels in rollback mode are exactly the recorded level
     region, normal, sws = rollback_regions(am)
-    lv = [l for l, nm in am.names.items() if nm == "possible_fuzz_levels"]
     found = False
-    for l in lv:
-        for dd in df.defs_of(am).all(l):
-            if dd[1] in region:
-                e = df.call_expr(am, dd[2]) if dd[0] == "call" else df.rvalue_expr(am, dd[3]["rv"])
-                args = e[2] if isinstance(e, tuple) and e[0] == "call" else ()
-                good = df.is_call(e, "RangeInclusive::<Idx>::new") and len(args) == 2 and args[0] == args[1] and \
-                    isinstance(args[0], tuple) and args[0][0] == "field" and args[0][2] == "fuzz" and \
-                    df.mentions(args[0], lambda x: isinstance(x, tuple) and x[0] == "downcast" and x[2] == "Applied")
-                ck.require(good, rule, "rollback fuzz level = recorded per-hunk level",
-                           "in rollback mode the fuzz levels tried are %s" % df.show(e), am.where(), ok_detail=df.show(e, 160))
-                found = True
+    il = c02.level_loop(ck, am, rule)
+    if il is not None:
+        for lo, hi, t in c02.level_range_by_mode(am, il)["Rollback"]:
+            good = lo == hi and isinstance(lo, tuple) and lo[0] == "field" and lo[2] == "fuzz" and \
+                df.mentions(lo, lambda x: isinstance(x, tuple) and x[0] == "downcast" and x[2] == "Applied")
+            ck.require(good, rule, "rollback fuzz level = recorded per-hunk level",
+                       "in rollback mode the fuzz levels tried are %s ..= %s" % (df.show(lo, 80), df.show(hi, 80)), am.where(t),
+                       ok_detail="%s ..= %s" % (df.show(lo, 80), df.show(hi, 80)))
+            found = True
     ck.require(found, rule, "rollback fuzz levels assigned in apply_modify", "no assignment of the fuzz range on the Rollback edge", am.where())
     # (c) the constructors pass the opposite direction and ApplyMode::Rollback(report param)
     for fid in sorted(ctors):
@@ -550,6 +547,15 @@ def r4_rollback_line(ck, rule="C04-R4"):
             names = [p_.get("name") for p_ in one[3]["rv"]["pl"].get("p", []) if isinstance(p_, dict)]
             if "rollback_line" in names:
                 stores.append((bb, s))
+                continue
+        # the `&mut rollback_line` binding may travel through a tuple of bindings before it is written through
+        # (which place the reference points to: its one whole-local definition; the stores through it do not re-point it)
+        whole = [dd for dd in df.defs_of(am).all(s["lhs"]["l"]) if dd[0] == "stmt"]
+        others = [dd for dd in df.defs_of(am).all(s["lhs"]["l"]) if dd[0] != "stmt" and not (dd[0] == "pstmt" and dd[3]["lhs"].get("p", [None])[0] == "deref")]
+        e = df.rvalue_expr(am, whole[0][3]["rv"]) if len(whole) == 1 and not others else None
+        if isinstance(e, tuple) and e[0] == "field" and e[2] == "rollback_line" and isinstance(e[1], tuple) and e[1][0] == "downcast" and e[1][2] == "Applied" \
+                and am.local_ty(s["lhs"]["l"]).startswith("&mut "):
+            stores.append((bb, s))
     if not ck.require(len(spl) == 1 and len(stores) == 1, rule, "apply_modify records one rollback line per splice",
                       "%d splices on the content, %d stores into Applied.rollback_line" % (len(spl), len(stores)), am.where()):
         return
